@@ -147,6 +147,8 @@ class CallMixin:
                 return
             c = self.contract_for_pyobj(obj)
             if c is not None:
+                if inspect.ismethod(obj) and isinstance(obj.__self__, type):
+                    args = [V(T.PY, obj.__self__)] + list(args)      # classmethod called on the class
                 yield from self.call_contract(c, args, kwargs, st, sink, n)
                 return
             if isinstance(obj, type) and issubclass(obj, BaseException):
@@ -414,6 +416,9 @@ class CallMixin:
             for arg, dflt in zip(a.kwonlyargs, a.kw_defaults):
                 if dflt is not None:
                     d[arg.arg] = self.const_default(dflt, c)
+            for va in (a.vararg, a.kwarg):
+                if va is not None:
+                    d[va.arg] = self.lift(None)      # *args / **kwargs: abstracted (contracts may not depend on them)
         d.update(getattr(c, "defaults", {}) or {})
         c._defaults = d
         return d
@@ -535,7 +540,7 @@ class CallMixin:
         defs = []
         if getattr(c, "defines", None) and c.entry_assume:
             cur_defs = set(getattr(self.current, "defines", ()) or ())
-            if set(c.defines) <= cur_defs:
+            if set(c.defines) <= cur_defs and not self.symbols_fresh(c, pre):
                 # the caller introduced the same symbols itself: the callee's definitions are proof obligations
                 for i, e in enumerate(c.entry_assume):
                     self.emit("pre@call", f"{c.key}#def{i + 1}", n, pre, self.spec(e, pre, env=env, old=pre),
@@ -577,6 +582,13 @@ class CallMixin:
                 st = self.write_back(node, st, nv, sink)
                 newvals[m] = nv
         return st, newvals
+
+    def symbols_fresh(self, c, st):
+        try:
+            self.check_fresh_symbols(c, st, None)
+            return True
+        except Unsupported:
+            return False
 
     def check_fresh_symbols(self, c, st, n):
         names = set(c.defines)
